@@ -128,6 +128,13 @@ func newSandbox(ctx *core.Ctx, name string, r *core.Rand) (*sandbox, error) {
 		_ = os.WriteFile(filepath.Join(sb.root, f), []byte("public data "+f), 0o644)
 	}
 	_ = os.Symlink("../hello.txt", filepath.Join(sb.root, "a", "link-up-inside")) // stays inside the root
+	// symbolic links to ancestors, all inside the root: a name that goes through one of them and then up is resolved
+	// by the host from where the link points to, not from where the name says
+	_ = os.Symlink(".", filepath.Join(sb.root, "self"))
+	_ = os.Symlink("..", filepath.Join(sb.root, "a", "up-root"))
+	_ = os.Symlink("../..", filepath.Join(sb.root, "a", "b", "up-root"))
+	_ = os.Symlink("../../..", filepath.Join(sb.root, "a", "b", "c", "up-root"))
+	_ = os.Symlink("..", filepath.Join(sb.root, "pub", "up-root"))
 	_ = filepath.Walk(top, func(p string, fi os.FileInfo, err error) error {
 		if err != nil {
 			return nil
@@ -163,6 +170,16 @@ func evilNames(sb *sandbox, depth int) []string {
 		"//", "...", "a/..", "a/b/../..", "hello.txt/..", "..\x00", "/etc"}
 	if depth == 0 {
 		names = append(names, "a/b/../../../sibdir", "a/b/../../../canary-sibling.txt", "hello.txt/../../sibdir")
+	}
+	// through a link to the root and one level up: lexically inside, on the host S/mid (never higher)
+	via := []string{"self", "a/up-root", "a/b/up-root", "pub/up-root"}
+	if depth >= 1 {
+		via = []string{"up-root"}
+	}
+	for _, v := range via {
+		for _, x := range []string{"canary-sibling.txt", "sibdir", "rootcanary", "made-through-link", "sibdir/canary-in-sibdir.txt"} {
+			names = append(names, v+"/../"+x)
+		}
 	}
 	return names
 }
